@@ -27,6 +27,9 @@ def _loads(world):
     # one two-definition dump: consumer listed before producer
     a, b, c = leaves[0], leaves[-1], leaves[-2]
     out.append(("load", ((b, mgr.tmpl("inc", (c,))), (c, mgr.tmpl("mul2", (a,)))), True))
+    # one dump that lists the same target twice with different dependencies (base definitions followed by an override)
+    out.append(("load", ((b, mgr.tmpl("mul2", (a,))), (b, mgr.tmpl("inc", (c,)))), True))
+    out.append(("load", ((b, mgr.tmpl("mul2", (a,))), (b, mgr.tmpl("inc", (c,)))), False))
     return out
 
 
@@ -132,6 +135,20 @@ class System(ManagerSystem):
             issues.append(self.issue("violation", hist, op, "set of registered tasks differs from the surviving definitions",
                                      {"tasks": sorted(got_defs)}))
             return issues
+        # the current expression of every location is what the surviving definitions say (None for locations without one,
+        # in particular for containers that merely enclose an expression-defined member)
+        for L in self.locations():
+            e = w.ref(L)._expr
+            t = ns.tasks.get(("E", L))
+            if t is None:
+                if e is not None:
+                    issues.append(self.issue("violation", hist, op, f"{T.path_str(L)} has no definition but its _expr is {e}"))
+                    return issues
+            else:
+                want = T.to_ref(t.term, w.roots)
+                if e is None or not (e == want):
+                    issues.append(self.issue("violation", hist, op, f"_expr of {T.path_str(L)} is {e}, the surviving definition is {want}"))
+                    return issues
         probs = check_indices(m, "")
         if probs:
             issues.append(self.issue("violation", hist, op, "index not derivable from the surviving tasks: " + probs[0],
